@@ -115,8 +115,9 @@ def hexFromFlag8 (flags : List Nat) (lsb : Bool) : Py (List Char) :=
 
 /-! ## text -/
 
-def hexFromStr (s : List Char) : List Char :=
-  s.flatMap (fun c => fmtHex 2 c.toNat)
+def hexFromStr (s : List Char) : Py (List Char) :=
+  if s.all (fun c => 31 < c.toNat ∧ c.toNat < 127) then .ok (s.flatMap (fun c => fmtHex 2 c.toNat))
+  else .error .valueError
 
 def bytesOfHex : List Char → Option (List Nat)
   | [] => some []
